@@ -133,7 +133,7 @@ CHECKS += [
         "peer at schedule-point grain; OwnReply, DistinctTags, Recycling, FIFOPerTag are model-checked for up to 3 callers / 3 calls each "
         "(incl. a Tag-interface caller); complete transition tours of the healthy-connection graphs are replayed on the real client under a "
         "client-side gate controller with a scripted peer and validated by TLC (Clnt9PTrace); free-running engines cover 1..64 callers, every "
-        "reply order for up to 5 calls, arbitrary segmentation and >65 535 consecutive calls (thorough).",
+        "reply order for up to 5 calls, arbitrary segmentation and >65 535 consecutive calls (thorough), and a peer that answers after the first bytes of a request taken in segments while the caller packs its next request (what reaches the peer must be the request issued).",
         "Trusted base: TLC, testing/synctest, the scripted peer and harness/wire. The peer answers only requests it has received, each once.",
         "TLA+/TLC model checking + transition-tour replay on the real client under a gate controller + TLC trace validation + free-running "
         "stress with an external payload oracle", "client", "DESIGN.md 4.3, 6 C09, docs/client.md"),
